@@ -33,8 +33,8 @@ class Uniform(Distribution):
             # If inside, compute the area and obtain the constant 
             # probability (pdf) as 1 divided by the area, the convert 
             # to logpdf. Special case if scalar.
-            diff = self.high - self.low
-            if isinstance(diff, (list, tuple, np.ndarray)): 
+            diff = np.asarray(self.high) - np.asarray(self.low) # bounds may be given as lists
+            if diff.ndim > 0: 
                 v= np.prod(diff)
             else:
                 v = diff**self.dim # scalar bounds are broadcast over all dim components
